@@ -137,6 +137,15 @@ class PruneStream(Stream):
         for zs, inner in built.get("zombies", []):
             zs.remove_structure(inner)          # the wired branch dies
         crashed = False
+        # the leaf case of the protocol: a placed model reports itself empty iff it has no pins
+        def leaves(sol, seen):
+            for st in sol.structures:
+                if st.model is not None:
+                    yield st.model
+                elif st.solver is not None and id(st.solver) not in seen:
+                    seen.add(id(st.solver))
+                    yield from leaves(st.solver, seen)
+        leaf_ok = all(bool(m.prune()) == (len(m.pin_dic) == 0) for m in leaves(top, set()))
         try:
             ret = top.prune()
         except Exception:
@@ -145,6 +154,8 @@ class PruneStream(Stream):
         try:
             if crashed:
                 raise ValueError("prune() raised")
+            if not leaf_ok:
+                raise ValueError("Model.prune() of a leaf disagrees with 'has no pins'")
             check_free_pins(d, built)
             mod = top.solve()
             got = sorted(p.name for p in mod.pin_dic)
@@ -181,7 +192,7 @@ if __name__ == "__main__":
     import translate_prune
     from common import source_obligation
     main("C19", [PruneStream()],
-         source_obligations=[source_obligation("PruneSrc_C19", translate_prune.translate, "PruneSrcProof.v", ["prune_src_is_prune"])],
+         source_obligations=[source_obligation("PruneSrc_C19", translate_prune.translate, "PruneSrcProof.v", ["prune_src_is_prune", "model_prune_src_is_dead"])],
          level_text="props/C19.v (all hierarchies): after prune no dead branch is left at any level; a hierarchy without dead "
                     "branches is unchanged (so prune is idempotent and removes nothing else: structures, connections, exposures "
                     "stay); the returned flag is 'the solver is empty'; the surviving leaves are exactly the non-empty ones in "
